@@ -526,6 +526,11 @@ func main() {
 			st.track(rn, "Unquote", x)
 			st.track(rn, "Format/1", x)
 		}
+		if prop == "C03" {
+			st.integrity(rn, []string{"Parse", "Format"}, x)
+		} else {
+			st.integrity(rn, []string{"NeedsQuote", "Quote", "Unquote"}, x)
+		}
 		if seen%64 == 0 {
 			if prop == "C03" {
 				st.fromOtherGoroutine(rn, []string{"Parse", "Format"}, prevX)
@@ -566,6 +571,12 @@ func main() {
 					Key: rp.Violation.Key, Detail: "replayed: the result of " + in["fn"] + "(x) changed when " + in["fn2"] + "(x2) was called"})
 			}
 			res.Case("replay-pair", true)
+			res.Write(f.Out)
+			return
+		}
+		if rp.Violation.Oracle == "caller-memory-unchanged" {
+			st.integrity(rn, []string{rp.Violation.Input["fn"]}, x)
+			res.Case("replay-integrity", true)
 			res.Write(f.Out)
 			return
 		}
